@@ -256,6 +256,13 @@ def r3_extension_returns_cursor(repo=None):
                         return lab == "F" and any(implies(x, "F") for x in e.children)
                     if e.kind == "BinaryOperator" and e.opcode == "&&":
                         return lab == "T" and any(implies(x, "T") for x in e.children)
+                    if e.kind == "DeclRefExpr" and e.path() and e.path() != bound:
+                        # a named condition: `const int flag = (... && bound > 1);` tested as `flag` / `!flag`
+                        ds = [rhs for p_, n_, rhs, k_ in clib.stores(fn) if p_ == e.path() and rhs is not None]
+                        ds += [d.children[-1] for d in fn.find("VarDecl") if d.name == e.path() and d.children]
+                        if len(ds) == 1 and ds[0].strip().kind in ("BinaryOperator", "UnaryOperator", "ParenExpr"):
+                            return implies(ds[0], lab)
+                        return False
                     if e.kind == "BinaryOperator" and e.children[0].path() == bound:
                         v = e.children[1].intval()
                         if v is None:
@@ -288,6 +295,11 @@ def r3_extension_returns_cursor(repo=None):
                 r.ok("%s:%s %s" % (C_EXT, ret.line, fname), "returns Py_BuildValue(\"K\", %s), dominated by the library write call(s)" % want)
             elif arg is None:
                 raise AnalysisError("%s: returned value not recognised: %s" % (fname, t[:80]))
+            elif arg.strip("()") == want and fmt == "K" and any(a.kind in ("ForStmt", "WhileStmt", "DoStmt") for c in libcalls for a in c.ancestors()):
+                # the right value, and the only way past the library calls is a loop that might not run: whether it can run zero
+                # times is a question about values this rule answers only for the guards it recognises
+                raise AnalysisError("%s: the return of the cursor at line %d is reached past a loop around the library call whose "
+                                    "zero-trip path was not excluded: not decided" % (fname, ret.line))
             else:
                 r.violation(C_EXT, fname, "returns Py_BuildValue(\"%s\", %s)" % (fmt, arg), "the value returned to Python is not the library "
                             "cursor `%s` read after the write (dominated by a library call: %s)" % (want, dominated), line=ret.line)
@@ -304,8 +316,15 @@ def r4_last_written_survive_close(repo=None):
     if not dels:
         raise AnalysisError("close(): `del self._channelObj` not found")
     # who-may-release: only close() - which takes the copies first - lets go of the channel object
+    def only_from_close(name, depth=0):
+        """a private method all of whose call sites are in close() (or in methods that are themselves only called from close)"""
+        if not name.startswith("_") or name.startswith("__") or depth > 3:
+            return False
+        sites = [(q3, c) for q3, f3 in m.functions.items() if q3.startswith("DigitalRFWriter.") and "<locals>" not in q3
+                 for c in ast.walk(f3) if isinstance(c, ast.Attribute) and pyfront.dotted(c.value) == "self" and c.attr == name]
+        return bool(sites) and all(q3 == q or only_from_close(q3.split(".")[-1], depth + 1) for q3, c in sites)
     for q2, f2 in m.functions.items():
-        if not q2.startswith("DigitalRFWriter.") or "<locals>" in q2 or q2 == q:
+        if not q2.startswith("DigitalRFWriter.") or "<locals>" in q2 or q2 == q or only_from_close(q2.split(".")[-1]):
             continue
         for x in ast.walk(f2):
             rel = (isinstance(x, ast.Delete) and any(pyfront.dotted(t) == "self._channelObj" for t in x.targets)) or (
